@@ -139,6 +139,7 @@ def oracle_model(m):
     if m['ic'] is not None:
         mod.AddInitialCondition('HH', 'F', m['ic'])
     mod.MaxTime = T
+    s = None
     try:
         if m['how_T'] == 'model':
             mod.main()
@@ -155,7 +156,6 @@ def oracle_model(m):
             err = None
     except Exception as e:  # noqa
         err = e
-        s = mod.EquationSolver if m['how_T'] == 'model' else s
     if form == 'short':
         if err is None or not isinstance(err, ValueError):
             fails.append({'key': 'model:short-exogenous-accepted', 'what': 'exogenous list of %d values, MaxTime %d: %r' % (
@@ -202,7 +202,7 @@ def nontrivial(case, res):
 def run(ctx):
     out = common.Outcome()
     out.proof = common.proof_status(FAMILY, PROPFILE)
-    n = ctx.scale(700, 9000)
+    n = ctx.scale(2500, 40000)
     cases = sc.corpus_cases(PID) + [sc.gen_case(ctx.rng, WEIGHTS) for _ in range(n)]
     cases = [c['case'] if 'case' in c else c for c in cases]
     # horizons set on the solver object before parsing
@@ -223,7 +223,7 @@ def run(ctx):
         out.failures.extend(oracle(case, res))
         if nontrivial(case, res):
             seen.add(sc.case_key(case))
-    nm = ctx.scale(25, 250)
+    nm = ctx.scale(60, 600)
     forms = {}
     for _ in range(nm):
         m = gen_model_case(ctx.rng)
